@@ -450,6 +450,13 @@ impl<'a, C: Crypto + 'a> CaseInitiator<'a, C> {
                 .compute_sigma3_signature(crypto, fabric, &mut tmp_buf[..], signature)
         })?;
 
+        // The Sigma3 key is derived from the transcript of Sigma1 and Sigma2. Capture that hash
+        // now: the first transmission below adds Sigma3 itself to the transcript, and a
+        // retransmission must still be encrypted under the very same key.
+        let mut sigma3_tt_hash = MaybeUninit::<Hash>::uninit();
+        let sigma3_tt_hash = sigma3_tt_hash.init_with(Hash::init());
+        initiator.casep.current_tt_hash(sigma3_tt_hash)?;
+
         // Step 7: Build and send Sigma3
         let mut tt_updated = false;
         exchange
@@ -461,7 +468,13 @@ impl<'a, C: Crypto + 'a> CaseInitiator<'a, C> {
                     tw.str_cb(&TLVTag::Context(1), |buf| {
                         initiator
                             .casep
-                            .sigma3_encrypt(crypto, fabric, signature.reference(), buf)
+                            .sigma3_encrypt(
+                                crypto,
+                                fabric,
+                                sigma3_tt_hash.reference(),
+                                signature.reference(),
+                                buf,
+                            )
                     })?;
                     tw.end_container()?;
 
